@@ -1508,6 +1508,8 @@ def c10(scn):
             if out is None:
                 fails.append(("kernel_returns", " ".join(c.toks)))
                 continue
+            if out[:1] != ["err"] and c.O.get("kvisits") != ["1"]:
+                fails.append(("kernel_applied_once_per_node", "%s: some node was visited zero or several times" % " ".join(c.toks)))
             if th <= 1:
                 ref[d] = out
             elif d == "dfs":
